@@ -20,7 +20,7 @@ ASSUMPTIONS = [
   "protocol legality: en is only asserted when rdy is observed high; where one side's rdy depends combinationally on the other side's en the independent side is decided first",
   "valrdy_queues.py cannot be imported on the pinned tree (InValRdyIfc/OutValRdyIfc are missing from pymtl3.stdlib.ifcs); the harness injects the two obvious 3-port interface classes to exercise it",
   "valrdy NormalQueueRTL with num_entries=1 fails loudly at construction (clog2(1)=0 -> Bits0) and is not driven; NormalQueue1RTL covers capacity 1",
-  "the 1-entry en/rdy and val/rdy queues have no reset on their full bit: for them a reset is modelled as power-on (fresh simulator)",
+  "the 1-entry val/rdy queues (valrdy_queues.py, importable only through the harness shim) have no reset on their full bit: for them a reset is modelled as power-on (fresh simulator)",
   "CL queues are driven by update_once blocks of a harness component; their relative order is left to pymtl3's method constraints",
 ]
 EXHAUSTIVE_NOTE = "exhaustive sub-space: reachable control states x {enq,deq} offers for RTL queues with capacity 1..4 (quick) / 1..6 (thorough)"
@@ -123,10 +123,9 @@ class Adapter:
     self.T, self.mk, self.rd = entry_type(cfg.get("etype", "bits"))
     args = cfg["args"]
     real = [self.T if a == "T" else self.n if a == "n" else a for a in args]
-    # the 1-entry en/rdy and val/rdy queues keep their 'full' bit in a register without reset: for them
+    # the 1-entry val/rdy queues keep their 'full' bit in a register without reset: for them
     # "reset" means power-on, i.e. a freshly constructed simulator
-    self.noreset = cfg["cls"] in ("NormalQueue1RTL", "PipeQueue1RTL") or \
-                   (cfg["cls"] == "BypassQueue1RTL" and self.style == "valrdy")
+    self.noreset = self.style == "valrdy" and cfg["cls"] in ("NormalQueue1RTL", "PipeQueue1RTL", "BypassQueue1RTL")
     def build():
       top = self._cl_harness(cls, real) if self.style == "cl" else cls(*real)
       top.elaborate()
